@@ -355,3 +355,136 @@ def run(ck: Check, repo: Repo) -> None:
     rule_styles(ck, repo, folder)
     from . import c09
     c09.rule_no_mutation(ck, repo, "R6")
+    rule_tables_roundtrip(ck, repo, folder, "R7")
+
+
+# ------------------------------------------------------------------ R7: writer tables vs reader tables over the SPDX list
+def _writer_shapes(repo: Repo) -> dict:
+    """Check (rename-invariantly) that the two comment writers have the shape the table model below assumes."""
+    from ..rules import has
+    ws = repo.func("reuse.comment.CommentStyle._create_comment_single")
+    wm = repo.func("reuse.comment.CommentStyle._create_comment_multi")
+    L = ["line", "line_result", "result", "text"]
+    single = has(ws, "for line in text.split('\\n'): line_result = cls.SINGLE_LINE if line: line_result += cls.INDENT_AFTER_SINGLE + line"
+                     " result.append(line_result) return '\\n'.join(result)", L)
+    multi = has(wm, "result.append(cls.MULTI_LINE.start) for line in text.split('\\n'):", L) and \
+        has(wm, "line_result = '' if cls.MULTI_LINE.middle: line_result += cls.INDENT_BEFORE_MIDDLE + cls.MULTI_LINE.middle"
+                " if line: line_result += cls.INDENT_AFTER_MIDDLE + line result.append(line_result)", L) and \
+        has(wm, "result.append(cls.INDENT_BEFORE_END + cls.MULTI_LINE.end) return '\\n'.join(result)", L)
+    return {"single": single, "multi": multi}
+
+
+def rule_tables_roundtrip(ck: Check, repo: Repo, folder: Folder, rid: str = "R7") -> None:
+    r = ck.rule(rid, "writer tables vs reader tables: every SPDX identifier, written in every style and form, is read back exactly")
+    import json
+    import re as _re
+    from . import c02
+    shapes = _writer_shapes(repo)
+    r.instance("writer-shapes", shapes)
+    if not all(shapes.values()):
+        raise AnalysisError(f"comment writers no longer have the modelled shape {shapes}: the table model cannot be instantiated")
+    styles = c02.style_tables(folder)
+    tags = folder.known("reuse.extract", "_SPDX_TAGS")
+    lic_rx = tags["spdx_expressions"]
+    con_rx = tags["contributor_lines"]
+    cps = folder.known("reuse.extract", "_COPYRIGHT_PATTERNS")
+    rx_l = _re.compile(lic_rx.pattern, lic_rx.flags)
+    rx_c = _re.compile(con_rx.pattern, con_rx.flags)
+    rx_cp = [_re.compile(p.pattern, p.flags) for p in cps]
+    res = repo.src / "reuse" / "resources"
+    ids = [l["licenseId"] for l in json.loads((res / "licenses.json").read_text())["licenses"]]
+    ids += [e["licenseExceptionId"] for e in json.loads((res / "exceptions.json").read_text())["exceptions"]]
+    r.floor(700, "identifiers in the bundled SPDX lists", got=len(ids))
+    values = ids + [i + "+" for i in ids[:40]] + ["GPL-3.0-or-later WITH Classpath-exception-2.0", "(MIT OR Apache-2.0) AND CC0-1.0",
+                                                  "LicenseRef-custom-1.0", "DocumentRef-x:LicenseRef-y"]
+    prefixes = folder.known("reuse.copyright", "_COPYRIGHT_PREFIXES")
+    notices = [f"{p} 2020 Jane Doe" for p in prefixes.values()] + [f"{p} Example Corp. <https://example.com>" for p in prefixes.values()]
+
+    def comment(style: dict, mode: str, lines: list[str]) -> str | None:
+        """Table model of create_comment (shape verified above), instantiated with the folded style constants."""
+        if mode == "single":
+            return "\n".join(style["single"] + (style["indent_single"] + l if l else "") for l in lines)
+        if any(style["end"] in l for l in lines):
+            return None  # the writer refuses (CommentCreateError)
+        out = [style["start"]]
+        for l in lines:
+            cur = ""
+            if style["middle"]:
+                cur += style["indent_before_middle"] + style["middle"]
+            if l:
+                cur += style["indent_after_middle"] + l
+            out.append(cur)
+        out.append(style["indent_before_end"] + style["end"])
+        return "\n".join(out)
+
+    def read_tag(rx, text: str) -> list[str]:
+        """Table model of find_spdx_tag (strip, mirrored-frame slice, strip; decided in C02-R4)."""
+        out = []
+        for prefix, value in rx.findall(text):
+            prefix, value = prefix.strip(), value.strip()
+            suffix = prefix[::-1]
+            if suffix and value.endswith(suffix):
+                value = value[: -len(suffix)]
+            out.append(value.strip())
+        return out
+
+    def read_notices(text: str) -> list[str]:
+        out = []
+        for line in text.splitlines():
+            for p in rx_cp:
+                m = p.search(line)
+                if m is not None:
+                    out.append(m.groupdict()["copyright"].strip())
+                    break
+        return out
+
+    n = 0
+    bad: dict[tuple, list] = {}
+    for st in styles:
+        if st["name"] in ("EmptyCommentStyle", "UncommentableCommentStyle"):
+            modes = []
+        else:
+            modes = [m for m in ("single", "multi") if (m == "single" and st["single"]) or (m == "multi" and st["start"] and st["end"])]
+        for mode in modes:
+            for v in values:
+                text = comment(st, mode, [f"SPDX-License-Identifier: {v}"])
+                if text is None:
+                    continue
+                n += 1
+                got = read_tag(rx_l, text)
+                if got != [v]:
+                    bad.setdefault((st["name"], mode, "licence"), []).append((v, got))
+            for who in ("Jane Doe", "Example Corp. <https://example.com>"):
+                text = comment(st, mode, [f"SPDX-FileContributor: {who}"])
+                if text is not None:
+                    n += 1
+                    got = read_tag(rx_c, text)
+                    if got != [who]:
+                        bad.setdefault((st["name"], mode, "contributor"), []).append((who, got))
+            for notice in notices:
+                text = comment(st, mode, [notice])
+                if text is None:
+                    continue
+                n += 1
+                got = read_notices(text)
+                if got != [notice]:
+                    bad.setdefault((st["name"], mode, "copyright"), []).append((notice, got))
+    r.count(n, prefix="style-value")
+    ck.extra["tables_roundtrip"] = {"styles": len(styles), "values": len(values), "notices": len(notices), "cases": n}
+    r.sample({"style": "CCommentStyle", "mode": "multi", "value": "MIT", "comment": comment(next(s for s in styles if s["name"] == "CCommentStyle"), "multi", ["SPDX-License-Identifier: MIT"])})
+    mirror_known = {"c": "FortranCommentStyle", "dnl": "M4CommentStyle", "..": "ReStructedTextCommentStyle", "REM": "BatchFileCommentStyle",
+                    "--": "HaskellCommentStyle/AppleScriptCommentStyle"}
+    for (name, mode, kind), items in sorted(bad.items()):
+        st = next(s for s in styles if s["name"] == name)
+        pref = (st["single"] if mode == "single" else st["middle"]).strip()
+        ex = items[0]
+        mirrored = kind == "licence" and pref and all(v.endswith(pref[::-1]) and got == [v[: -len(pref)].strip()] for v, got in items)
+        if mirrored:
+            r.violation("reuse.extract.find_spdx_tag", f"mirrored-prefix strip truncates SPDX identifiers in {name} ({mode})",
+                        f"{len(items)} identifiers of the bundled list end in {pref[::-1]!r}, the reverse of the line prefix {pref!r}, and"
+                        f" are read back truncated, e.g. {ex[0]!r} -> {ex[1]}: " + ", ".join(v for v, _ in items[:8]),
+                        "src/reuse/extract.py", {"identifiers": [v for v, _ in items]})
+        else:
+            r.violation(st["qual"], f"{kind} written in {name} ({mode}) is not read back exactly",
+                        f"{len(items)} values differ, e.g. {ex[0]!r} is read back as {ex[1]}", "src/reuse/comment.py",
+                        {"examples": items[:5]})
